@@ -199,11 +199,18 @@ Section Forget.
   (* ---- forgetting contents: scripts ---- *)
 
   Lemma forget_upserts : forall b es,
-    map (forget_micro tokf) (upsert_script b es) = flat_map script_replace (upsert_toks tokf b es).
+    map (forget_micro tokf) (upsert_script b es) = flat_map script__replace (upsert_toks tokf b es).
   Proof.
     intros b es. induction es as [|e es IH]; [reflexivity|].
     unfold upsert_script, upsert_toks in *. cbn [flat_map]. rewrite map_app, flat_map_app, IH.
     f_equal. destruct (eid e); reflexivity.
+  Qed.
+
+  (* len(events_upsert) is the number of UPDATE statements the loop issues *)
+  Lemma length_upsert_toks : forall b es, length (upsert_toks tokf b es) = n_upserts es.
+  Proof.
+    intros b es. unfold upsert_toks, n_upserts. induction es as [|e es IH]; [reflexivity|].
+    cbn [flat_map filter]. rewrite app_length, IH. unfold no_id. destruct (eid e); reflexivity.
   Qed.
 
   (* the token script of a call is the projection of its statement script *)
@@ -219,14 +226,14 @@ Section Forget.
     - destruct (sql_bucket_rowid c b); reflexivity.
     - rewrite map_app, forget_upserts. unfold bulk_script.
       destruct (sql_bucket_rowid c b); cbn [expand map forget_micro length Nat.add];
-        rewrite ?map_length; reflexivity.
+        rewrite ?map_length, length_upsert_toks; reflexivity.
     - reflexivity.
     - reflexivity.
     - reflexivity.
     - reflexivity.
     - destruct (limit =? 0); reflexivity.
     - reflexivity.
-    - rewrite map_app, forget_upserts. cbn [expand map forget_micro]. rewrite !map_length.
+    - rewrite map_app, forget_upserts. cbn [expand map forget_micro]. rewrite !map_length, length_upsert_toks.
       do 3 f_equal.
       assert (Hle : (length (match sql_bucket_rowid c b with
                              | Some _ => firstn k (filter no_id es) | None => [] end)
